@@ -10,7 +10,7 @@ ENGINES = [
      "kind_free_text": "explicit-state BFS whose transitions are real setter calls on real objects; exact-state dedup; depth bound or fixpoint"},
 ]
 # properties whose check has been accepted (run end-to-end on the unchanged tree in both tiers); others stay unclaimed
-ACCEPTED = ["C01", "C03", "C04", "C05", "C07", "C08", "C09", "C10", "C11", "C12", "C13", "C17", "C19"]
+ACCEPTED = ["C01", "C03", "C04", "C05", "C07", "C08", "C09", "C10", "C11", "C12", "C13", "C14", "C15", "C17", "C18", "C19"]
 _PENDING = "check not built yet in this round (machinery under construction; see DESIGN.md section 3)"
 NOT_APPLICABLE = {p: _PENDING for p in ["C%02d" % i for i in range(1, 20)]}
 META = {
